@@ -4,6 +4,7 @@ import (
 	"context"
 	"encoding/binary"
 	"fmt"
+	"strings"
 	"sync"
 	"time"
 
@@ -132,6 +133,9 @@ type Net struct {
 	// Panics captured in peer handler goroutines (harness bugs)
 	script Script
 	hang   chan struct{}
+	// Special headers addressable by answers of kind "special:<name>"
+	Special  map[string]*vk.H
+	released []bool
 }
 
 type SeenReq struct {
@@ -153,6 +157,7 @@ func NewNet(k int, chain vk.Chain, honourDeadlines bool, script Script) (*Net, e
 	n := &Net{MN: mn, C: chain, attempts: map[string]int{}, script: script, hang: make(chan struct{})}
 	n.Client = &dlHost{Host: hosts[0], honour: honourDeadlines}
 	n.Gates = make([]chan struct{}, k)
+	n.released = make([]bool, k)
 	for i, h := range hosts[1:] {
 		i := i
 		n.Peers = append(n.Peers, h)
@@ -188,8 +193,19 @@ func (n *Net) NewExchange(trusted peer.IDSlice, opts ...p2p.Option[p2p.ClientPar
 	return ex, nil
 }
 
+// Release opens peer i's gate (its answer may now be sent).
+func (n *Net) Release(i int) {
+	if n.Gates[i] != nil && !n.released[i] {
+		n.released[i] = true
+		close(n.Gates[i])
+	}
+}
+
 func (n *Net) Close() {
 	close(n.hang)
+	for i := range n.Gates {
+		n.Release(i)
+	}
 	_ = n.MN.Close()
 }
 
@@ -276,6 +292,16 @@ func (n *Net) answer(s network.Stream, req *p2p_pb.HeaderRequest, a Answer) {
 	default:
 		base = n.honestRange(origin, amount)
 	}
+	if strings.HasPrefix(a.Kind, "special:") {
+		h := n.Special[strings.TrimPrefix(a.Kind, "special:")]
+		if h == nil {
+			_ = writeResp(s, nil, p2p_pb.StatusCode_NOT_FOUND)
+			_ = s.Close()
+			return
+		}
+		writeHeaders(s, []*vk.H{h})
+		return
+	}
 	switch a.Kind {
 	case "honest":
 		if len(base) == 0 {
@@ -296,7 +322,7 @@ func (n *Net) answer(s network.Stream, req *p2p_pb.HeaderRequest, a Answer) {
 	case "shift": // valid headers of a shifted origin
 		writeHeaders(s, n.honestRange(uint64(int64(origin)+int64(a.K)), amount))
 	case "other-height": // single valid header of another height
-		writeHeaders(s, n.honestRange(origin+1, 1))
+		writeHeaders(s, []*vk.H{n.C[3]}) // a fixed, well-formed header that is never the requested one
 	case "replay-first": // the chunk right above height a.K (a chunk that belongs elsewhere)
 		writeHeaders(s, n.honestRange(uint64(a.K), amount))
 	case "reorder":
@@ -421,4 +447,3 @@ func (n *Net) answer(s network.Stream, req *p2p_pb.HeaderRequest, a Answer) {
 		panic("unknown answer kind " + a.Kind)
 	}
 }
-
